@@ -88,6 +88,19 @@ class SerialGateway:
 
 
 class LubaGateway(SerialGateway):
+    settings = (0, 0, 0)         # mode, event filter, hardware - as last written by the host (READ/WRITE SETTINGS)
+
+    def event(self, status, data, lat_name):
+        """An event packet laid out as the event filter the host configured prescribes (bit 7: no events, 6: none for
+        sent frames, 5: none for received frames, 3: no time tick, 2: no line number - see the driver's own table)."""
+        f = self.settings[1]
+        et = status >> 6
+        if f & 0x80 or (et == 0 and f & 0x40) or (et == 2 and f & 0x20):
+            return
+        tick = int(self.sim.loop.time() * 1000) & 0xFFFF
+        body = ([] if f & 0x08 else [(tick >> 8) & 0xFF, tick & 0xFF]) + ([] if f & 0x04 else [0]) + [status] + list(data)
+        self.emit(RW.luba_frame(RW.LUBA_EVENT, body), lat_name)
+
     def on_write(self, data):
         self.writes.append(data)
         i = 0
@@ -110,6 +123,7 @@ class LubaGateway(SerialGateway):
                 self.emit(RW.luba_frame(0x21, body), "ack")
         elif cmd == 0x2A:
             self.wire.append({"kind": "settings", "payload": payload, "t": t})
+            self.settings = (list(payload) + [0, 0, 0])[:3]
             if not self.mute:
                 self.emit(RW.luba_frame(0x2B, payload[:3]), "ack")
         elif cmd == 0x32:
@@ -125,17 +139,17 @@ class LubaGateway(SerialGateway):
             self.emit(RW.luba_frame(0x33, [self._tx_id, 0]), "ack")
             fb = list(value.to_bytes(nbytes, "big"))
             for _ in range(2 if twice else 1):
-                self.emit(RW.luba_event_sent(self._tx_id, fb), "tx")
+                self.event((0 << 6), [self._tx_id] + fb, "tx")
             if self.mute_answers:
                 return
             oc = self.outcome(bits, value)
             if oc[0] == "value":
-                self.emit(RW.luba_event_received([oc[1]]), "answer")
+                self.event((2 << 6) | 8, [oc[1]], "answer")
             elif oc[0] == "error":
                 # the firmware has two reports for a garbled backward frame ("framing error" 63, "only start/stop bit
                 # combination" 62); either may carry whatever the receiver had collected in the place of a frame
                 sel = oc[1] if len(oc) > 1 else 0
-                self.emit(RW.luba_event((2 << 6) | (63 if sel & 1 == 0 else 62), [sel] if sel & 3 in (1, 2) else []), "answer")
+                self.event((2 << 6) | (63 if sel & 1 == 0 else 62), [sel] if sel & 3 in (1, 2) else [], "answer")
         else:
             self.wire.append({"kind": "other", "cmd": cmd, "t": t})
 
